@@ -8,6 +8,11 @@ payload:
   api    : [{'k': int, 'adds': [[barcode, index], ...], 'queries': [q...]}]   addBarcode + expand (demux --si path)
   circle : [[s, n], ...]                                hamming_circle(s, n, 'ACTGN')
   shipped: [{'dir': 'barcodes'|'indices', 'k', 'lazy', 'queries': [[alias, [q...]], ...]}]
+  pfiles : [{'text': str, 'gz': bool, 'lazy': bool, 'suffix': str}]   one real barcode file each (utf-8 bytes exactly as given,
+           plain or gzip), read by parse_barcode_file on a fresh parser (lazy: by a lazyLoad='*' parser at the first
+           parser[alias]); result per file: {'items': [[barcode, ['i', decimal string] | ['s', token]], ...]} (the
+           barcode -> index mapping of the alias, the observable) or {'error': ..}
+  a group file with 'raw': true is written as utf-8 bytes without newline translation
 """
 import gzip, os, sys, io
 import fw
@@ -45,17 +50,91 @@ def tables_of(parser, alias):
         return {'error': '%s: %s' % (type(e).__name__, e)}
 
 
+def write_file(p, content, gz, raw=False):
+    if raw:
+        data = content.encode('utf-8')
+        with (gzip.open(p, 'wb') if gz else open(p, 'wb')) as h:
+            h.write(data)
+    elif gz:
+        with gzip.open(p, 'wt') as h:
+            h.write(content)
+    else:
+        with open(p, 'w') as h:
+            h.write(content)
+
+
+def enc_index(v):
+    if isinstance(v, bool):
+        return ['?', repr(v)]
+    if isinstance(v, int):
+        return ['i', str(v)]
+    if isinstance(v, str):
+        return ['s', v]
+    return ['?', repr(v)[:80]]
+
+
+def mapping_items(parser, alias):
+    """barcode -> index of the one alias this parser has read (public accessors; several fallbacks)"""
+    m = None
+    try:
+        m = parser.getBarcodeMapping().get(alias)
+    except Exception:
+        m = None
+    if m is None:
+        m = parser[alias]
+    return [[b, enc_index(i)] for b, i in (m or {}).items()]
+
+
+def run_pfile(B, f, n, shared):
+    """eager: parse_barcode_file on a parser shared by up to 50 files (every file has its own alias);
+    lazy: its own directory and a lazyLoad='*' parser, loaded by the first parser[alias]"""
+    alias = 'f%d' % n
+    name = alias + f.get('suffix', '.bc') + ('.gz' if f.get('gz') else '')
+    d = os.path.join(os.environ['SCMO_SCRATCH'], ('pf%d' % n) if f.get('lazy') else 'pf')
+    os.makedirs(d, exist_ok=True)
+    p = os.path.join(d, name)
+    write_file(p, f['text'], f.get('gz'), raw=True)
+    try:
+        if f.get('lazy'):
+            parser = B.BarcodeParser(barcodeDirectory=d, hammingDistanceExpansion=0, lazyLoad='*')
+            try:                                   # the alias the code derives from the file name (only .bc / .gz are dropped)
+                alias = parser.path_to_barcode_alias(p)
+            except Exception:
+                alias = os.path.splitext(os.path.basename(p))[0].replace('.gz', '').replace('.bc', '')
+            m = parser[alias]                      # parse_pending_barcode_file_of_alias
+            return {'items': [[b, enc_index(i)] for b, i in (m or {}).items()]}
+        if shared.get('n', 50) >= 50:
+            shared['parser'] = B.BarcodeParser(barcodeDirectory=os.path.join(d, 'nonexistent'))
+            shared['n'] = 0
+        shared['n'] += 1
+        parser = shared['parser']
+        try:
+            alias = parser.path_to_barcode_alias(p)
+        except Exception:
+            alias = os.path.splitext(os.path.basename(p))[0].replace('.gz', '').replace('.bc', '')
+        try:
+            parser.parse_barcode_file(p)
+        except BaseException:
+            shared['n'] = 50                       # a refused file may leave a half-read alias behind: fresh parser next
+            raise
+        return {'items': mapping_items(parser, alias)}
+    except BaseException as e:
+        return {'error': '%s: %s' % (type(e).__name__, str(e)[:200])}
+    finally:
+        try:
+            os.remove(p)
+            if f.get('lazy'):
+                os.rmdir(d)
+        except OSError:
+            pass
+
+
 def run_group(B, g, n):
     d = os.path.join(os.environ['SCMO_SCRATCH'], 'g%d' % n)
     os.makedirs(d)
     for f in g['files']:
         p = os.path.join(d, f['name'])
-        if f.get('gz'):
-            with gzip.open(p, 'wt') as h:
-                h.write(f['content'])
-        else:
-            with open(p, 'w') as h:
-                h.write(f['content'])
+        write_file(p, f['content'], f.get('gz'), f.get('raw'))
     lazy = g['lazy']
     if isinstance(lazy, list):
         lazy = tuple(lazy)
@@ -75,7 +154,11 @@ def handler(p):
     sys.stdout = io.StringIO()
     try:
         import singlecellmultiomics.barcodeFileParser.barcodeFileParser as B
-        out = {'groups': [], 'api': [], 'circle': [], 'shipped': []}
+        out = {'groups': [], 'api': [], 'circle': [], 'shipped': [], 'pfiles': []}
+        out['maxd'] = sys.get_int_max_str_digits() if hasattr(sys, 'get_int_max_str_digits') else 0
+        shared = {}
+        for n, f in enumerate(p.get('pfiles', [])):
+            out['pfiles'].append(run_pfile(B, f, n, shared))
         for n, g in enumerate(p.get('groups', [])):
             out['groups'].append(run_group(B, g, n))
         for a in p.get('api', []):
